@@ -37,10 +37,10 @@ def instances(tier):
         if tcp:
             d["TCP"] = None
         out.append(mk("c07_classify_%s" % ("tcp" if tcp else "serial"), "C07/c07.c", rc.UNITS, d, unwind=UW,
-                      default_unwind=3, encoded_units=rc.ENC, fp_removal=True, replay_units=rc.REPLAY_UNITS, object_bits=12, timeout=3000))
+                      default_unwind=lmax + 2, encoded_units=rc.ENC, fp_removal=True, replay_units=rc.REPLAY_UNITS, object_bits=12, timeout=3000))
     for mode in ("FLIP1", "BURST", "TRUNC", "EXTEND"):
         out.append(mk("c07_%s" % mode.lower(), "C07/c07.c", rc.UNITS, dict(D, **{"MODE_" + mode: None}), unwind=UW,
-                      default_unwind=3, encoded_units=rc.ENC, fp_removal=True, replay_units=rc.REPLAY_UNITS, object_bits=12, timeout=3000,
+                      default_unwind=lmax + 2, encoded_units=rc.ENC, fp_removal=True, replay_units=rc.REPLAY_UNITS, object_bits=12, timeout=3000,
                       kf_keys=(["burst_hdcrc_boundary"] if mode == "BURST" else [])))
     # The protocol instances above link the bit-serial CRC specification instead of src/crc-16-arc.c (see
     # regp_common.py). That the real file computes that function -- for odd and even lengths, octet and word
@@ -54,10 +54,10 @@ def instances(tier):
                   default_unwind=10, no_models=True))
     if tier == "quick":
         out.append(mk("c07_flip2", "C07/c07.c", rc.UNITS, dict(D, MODE_FLIP2=None), unwind=UW,
-                      default_unwind=3, encoded_units=rc.ENC, fp_removal=True, replay_units=rc.REPLAY_UNITS, object_bits=12, timeout=3000))
+                      default_unwind=lmax + 2, encoded_units=rc.ENC, fp_removal=True, replay_units=rc.REPLAY_UNITS, object_bits=12, timeout=3000))
     else:
         for o in range(2, lmax):
             out.append(mk("c07_flip2_o%d" % o, "C07/c07.c", rc.UNITS, dict(D, MODE_FLIP2=None, FIRST_OCTET=o),
-                          unwind=UW, default_unwind=3, encoded_units=rc.ENC, fp_removal=True, replay_units=rc.REPLAY_UNITS, object_bits=12,
+                          unwind=UW, default_unwind=lmax + 2, encoded_units=rc.ENC, fp_removal=True, replay_units=rc.REPLAY_UNITS, object_bits=12,
                           timeout=3000))
     return out
